@@ -121,6 +121,20 @@ Proof.
 Qed.
 
 (* ------------------------------------------------------------------ Range / Content-Range attributes *)
+Lemma range_checked_ok r : range_ok r -> range_checked r = Ok (Some (range_str r)).
+Proof.
+  destruct r as [s [e|]]; cbn [range_ok range_checked]; [|reflexivity].
+  intros [H _]. assert (E : ((0 <=? s)%Z && (s <? e)%Z) = true) by lia. rewrite E. reflexivity.
+Qed.
+
+(* a range with a stop that is not 0 <= start < stop is refused, whether given as tuple or as Range object *)
+Lemma range_invalid_refused s e : ~ (0 <= s < e)%Z -> (0 <= e)%Z ->
+  serialize_range (PInts [Some s; Some e]) = Raise ValueError /\ serialize_range (PRange s (Some e)) = Raise ValueError.
+Proof.
+  intros H He. cbn [serialize_range range_init range_checked].
+  assert (E0 : (e <? 0)%Z = false) by lia. rewrite E0.
+  assert (E : ((0 <=? s)%Z && (s <? e)%Z) = false) by lia. cbn [range_checked]. rewrite E. split; reflexivity.
+Qed.
 Lemma roundtrip_range_obj anch zn dflt key r env : range_ok r ->
   let '(env', e) := req_set (conv_range anch zn) key (PRange (fst r) (snd r)) env in
   e = None /\ env_get key env' = Some (range_str r) /\
@@ -128,7 +142,7 @@ Lemma roundtrip_range_obj anch zn dflt key r env : range_ok r ->
 Proof.
   intros Hr. apply req_set_get.
   - discriminate.
-  - destruct r; reflexivity.
+  - destruct r as [s e]. apply (range_checked_ok (s, e) Hr).
   - apply parse_range_str. exact Hr.
 Qed.
 
@@ -140,8 +154,8 @@ Proof.
   intros Hr Hs. apply req_set_get.
   - discriminate.
   - cbn [conv_range c_serialize serialize_range]. unfold range_init.
-    destruct e as [e|]; [|reflexivity]. cbn [range_ok] in Hr.
-    assert (E : (e <? 0)%Z = false) by lia. rewrite E. reflexivity.
+    destruct e as [e|]; [|apply (range_checked_ok (s, None) Hr)]. pose proof Hr as Hr'. cbn [range_ok] in Hr'.
+    assert (E : (e <? 0)%Z = false) by lia. rewrite E. apply (range_checked_ok (s, Some e) Hr).
   - apply parse_range_str. exact Hr.
 Qed.
 
